@@ -1,7 +1,7 @@
-\* today's mechanism over every session of <= 3 calls, wider spans
+\* today's mechanism over every session of <= 3 calls, (the wider universe is covered by the gen2 scripts)
 CONSTANTS Variant = "code"
           MaxCalls = 3
-          Scope = "thorough"
+          Scope = "quick"
           Family = "none"
 INIT Init
 NEXT Next
